@@ -192,6 +192,10 @@ func norm(v any) any {
 // senRead is set while the output of a SEN encoder (read with sen.Parse) is matched.
 var senRead bool
 
+// keyChoice records, while one encoder's output is matched, which of several acceptable keys it used
+// for a member (path -> key). The documentation may leave the key open; the encoders must still agree.
+var keyChoice map[string]string
+
 // match returns "" when obs is an acceptable encoding of ref, else where and why not.
 func match(ref, obs any, path string) string {
 	switch r := ref.(type) {
@@ -282,6 +286,9 @@ func match(ref, obs any, path string) string {
 				return fmt.Sprintf("%s: member present under several keys %v", path, present)
 			case len(present) == 1:
 				claimed[present[0]] = true
+				if len(m.keys) > 1 && keyChoice != nil {
+					keyChoice[path+"."+strings.Join(m.keys, "|")] = present[0]
+				}
 				if mm := match(m.val, o[present[0]], path+"."+present[0]); mm != "" {
 					return mm
 				}
@@ -302,6 +309,20 @@ func match(ref, obs any, path string) string {
 
 type enc struct {
 	o *ojg.Options
+}
+
+func uniqAll(in []string) []string {
+	var out []string
+	for _, s := range in {
+		dup := false
+		for _, o := range out {
+			dup = dup || o == s
+		}
+		if !dup {
+			out = append(out, s)
+		}
+	}
+	return out
 }
 
 func uniq(a, b string) []string {
@@ -553,6 +574,12 @@ func (e *enc) key(f *reflect.StructField) (keys []string, skip, tagOmit, asStrin
 		if o.KeyExact {
 			return []string{name}
 		}
+		if len(name) <= 3 {
+			// ojg lower-cases names of at most three letters entirely (ID -> id, URL -> url); the
+			// Options comment only speaks of the first character: both are accepted, all encoders must
+			// make the same choice
+			return uniq(strings.ToLower(name), lowerFirst(name))
+		}
 		return []string{lowerFirst(name)}
 	}
 	if !o.UseTags {
@@ -565,7 +592,7 @@ func (e *enc) key(f *reflect.StructField) (keys []string, skip, tagOmit, asStrin
 		if o.KeyExact {
 			return []string{name}, false, false, false
 		}
-		return uniq(lowerFirst(name), name), false, false, false
+		return uniqAll(append(plain(), name)), false, false, false
 	}
 	parts := strings.Split(tag, ",")
 	if parts[0] == "-" && len(parts) == 1 {
@@ -583,7 +610,7 @@ func (e *enc) key(f *reflect.StructField) (keys []string, skip, tagOmit, asStrin
 		if o.KeyExact {
 			return []string{name}, false, tagOmit, asString
 		}
-		return uniq(lowerFirst(name), name), false, tagOmit, asString
+		return uniqAll(append(plain(), name)), false, tagOmit, asString
 	}
 	return []string{parts[0]}, false, tagOmit, asString
 }
@@ -775,6 +802,7 @@ func (ck *checker) one(val any, label string, o *ojg.Options, goCompat bool) {
 			}
 		}
 	}
+	choices := map[string]map[string]string{} // member -> key -> encoder that chose it
 	for _, en := range encoders {
 		var text string
 		var tree any
@@ -809,10 +837,30 @@ func (ck *checker) one(val any, label string, o *ojg.Options, goCompat bool) {
 			}
 		}
 		senRead = en.sen
+		keyChoice = map[string]string{}
 		m := match(ref, norm(tree), "$")
 		senRead = false
+		for mem, k := range keyChoice {
+			if choices[mem] == nil {
+				choices[mem] = map[string]string{}
+			}
+			if _, seen := choices[mem][k]; !seen {
+				choices[mem][k] = en.name
+			}
+		}
+		keyChoice = nil
 		if m != "" {
 			c.Violation(en.name, "differs-from-reference", classify(m)+"/"+cls, cs, refText, m+" :: got "+clip(show(norm(tree))))
+		}
+	}
+	for mem, ks := range choices {
+		if len(ks) > 1 {
+			var parts []string
+			for k, en := range ks {
+				parts = append(parts, fmt.Sprintf("%s writes %q", en, k))
+			}
+			sort.Strings(parts)
+			c.Violation("encoders", "disagree-on-member-key", optClass(o), cs, "one key for member "+mem+" from every encoder", strings.Join(parts, "; "))
 		}
 	}
 	c.Distinct(typeText, valueText, optString(o), label)
